@@ -36,6 +36,7 @@ type Options struct {
 	Redis     bool // metadata store on miniredis instead of etcd (the plugin always uses etcd)
 	ShareBase int  // default 100
 	MaxShare  int  // default -1
+	Raw       bool // no interception at all (C34: the interceptor's own synchronisation would hide races)
 }
 
 // World is one un-mocked cluster.
@@ -116,7 +117,11 @@ func New(t *testing.T, o Options) *World {
 	w.Etcd = embedded.NewCluster(t, etcdPrefix).RandClient()
 	w.WipeEtcd()
 	w.IC = NewInterceptor()
-	w.Eng = vengine.New(w.engineHook(w.IC))
+	if o.Raw {
+		w.Eng = vengine.New(nil)
+	} else {
+		w.Eng = vengine.New(w.engineHook(w.IC))
+	}
 	w.start()
 	return w
 }
@@ -135,11 +140,16 @@ func (w *World) start() {
 		w.T.Fatalf("calcium.New: %v", err)
 	}
 	w.Cal = cal
-	w.busy = cal.VerifCountTasks()
+	if !w.opts.Raw {
+		w.busy = cal.VerifCountTasks()
+	}
 	st, rm, wl := cal.VerifDeps()
 	w.RawStore, w.RawWAL = st, wl
 	mgr := rm.(*cobalt.Manager)
 	w.Plugin = mgr.GetPlugins()[0]
+	if w.opts.Raw {
+		return
+	}
 	nm, _ := cobalt.New(w.Cfg)
 	nm.AddPlugins(&pluginWrap{in: w.Plugin, ic: w.IC})
 	cal.VerifSetDeps(&storeWrap{in: st, ic: w.IC}, nm, &walWrap{in: wl, ic: w.IC})
@@ -443,6 +453,10 @@ func (w *World) CheckNodeUsage(node string) []string {
 // pool worker but not yet picked up is invisible for a moment, so oracles on state that late
 // asynchronous tasks (remap) may still touch must re-read before they conclude.
 func (w *World) Quiesce(timeout time.Duration) bool {
+	if w.busy == nil { // raw world: no task counter (it would add synchronisation); just give async tasks time
+		time.Sleep(150 * time.Millisecond)
+		return true
+	}
 	deadline := time.Now().Add(timeout)
 	calm := 0
 	for time.Now().Before(deadline) {
